@@ -29,7 +29,7 @@ SHAPES = [(0, 0), (0, 4), (1, 2), (2, 2)]      # (start, length) on a 4-step gri
 
 def _build(e, rich_bounds):
     ws = TRIPLES[int(e.mk("words", 0, (len(TRIPLES) if rich_bounds else 3) - 1))]
-    seps = SEP_PAIRS[int(e.mk("seps", 0, (len(SEP_PAIRS) if rich_bounds else 4) - 1))]
+    seps = SEP_PAIRS[int(e.mk("seps", 0, (6 if rich_bounds else 4) - 1))]
     lead = LEAD[int(e.mk("lead", 0, (3 if rich_bounds else 2) - 1))]
     s = lead + ws[0] + seps[0] + ws[1] + seps[1] + ws[2]
     n = len(s)
@@ -121,4 +121,4 @@ def _mk(ji, oi, tiers, timeout, wmax):
 for _ji in range(len(JUSTIFY)):
     for _oi in range(len(OVERFLOW)):
         _mk(_ji, _oi, ("quick",), 900, 4)
-        _mk(_ji, _oi, ("thorough",), 3400, 14)
+        _mk(_ji, _oi, ("thorough",), 3400, 8)
